@@ -234,9 +234,9 @@ def parseAt (lvl : Nat) : Nat → List Tok → PR Expr :=
 
 /-- what the first token of an operand rendered at level `lvl` can be -/
 def goodHead (lvl : Nat) : Tok → Bool
-  | .name _ | .int _ | .float _ | .imag _ => true
+  | .name _ | .int _ | .float _ | .imag _ | .str _ _ | .bytes _ => true
   | .kw .true | .kw .false | .kw .none => true
-  | .op .ellipsis | .op .lpar => true
+  | .op .ellipsis | .op .lpar | .op .lsqb | .op .lbrace => true
   | .kw .not => decide (lvl ≤ 4)
   | .op .plus | .op .minus | .op .tilde => decide (lvl ≤ 12)
   | _ => false
@@ -245,6 +245,11 @@ theorem goodHead_anti {lvl lvl' : Nat} {t : Tok} (h : lvl ≤ lvl') (hg : goodHe
     goodHead lvl t = true := by
   unfold goodHead at *
   split at hg <;> simp_all <;> omega
+
+theorem goodHead_anti_atom {lvl : Nat} {t : Tok} (hg : goodHead Prec.ATOM t = true) :
+    goodHead lvl t = true := by
+  unfold goodHead at *
+  split at hg <;> simp_all [Prec.ATOM]
 
 theorem binOperand_eq_parseAt {k : Nat} (hk : k ≤ 5) : binOperand k = parseAt (k + 7) := by
   funext f ts
@@ -386,9 +391,12 @@ theorem firstTok (p : Nat → Bool) : (e : Expr) → inFrag e = true → ∀ lvl
     refine ⟨constTok c, [], by simp [unparse], ?_⟩
     cases c with
     | bool b => cases b <;> rfl
-    | str _ _ => simp [inFrag] at h
-    | bytes _ => simp [inFrag] at h
     | _ => rfl
+  | .attribute v n, h, lvl => by
+    have hv : inFrag v = true := by simpa [inFrag] using h
+    obtain ⟨t, r', ht, hgood⟩ := firstTok p v hv Prec.ATOM
+    refine ⟨t, r' ++ [.op .dot, .name n], ?_, goodHead_anti_atom hgood⟩
+    by_cases hi : isIntConst v = true <;> simp [unparse, hi, ht, op]
   | .unaryOp o x, h, lvl => by
     rw [unparse_group p _ lvl (unaryOpPrec o) rfl, toks_groupIf]
     by_cases hg : lvl > unaryOpPrec o
@@ -439,7 +447,7 @@ theorem firstTok (p : Nat → Bool) : (e : Expr) → inFrag e = true → ∀ lvl
   | .namedExpr .., h, _ | .lambda .., h, _ | .dict .., h, _ | .set .., h, _ | .listComp .., h, _
   | .setComp .., h, _ | .dictComp .., h, _ | .genExp .., h, _ | .await .., h, _ | .yield .., h, _
   | .yieldFrom .., h, _ | .call .., h, _ | .formattedValue .., h, _ | .joinedStr .., h, _
-  | .attribute .., h, _ | .subscript .., h, _ | .starred .., h, _ | .list .., h, _ | .tuple .., h, _
+  | .subscript .., h, _ | .starred .., h, _ | .list .., h, _ | .tuple .., h, _
   | .slice .., h, _ => by simp [inFrag] at h
 
 theorem toks_cmpOpOuts_noWalrus (o : CmpOp) : .op .walrus ∉ toks (cmpOpOuts o) := by
@@ -454,6 +462,10 @@ theorem noWalrus (p : Nat → Bool) : (e : Expr) → inFrag e = true → ∀ lvl
     cases c with
     | bool b => cases b <;> simp [unparse, constTok]
     | _ => simp [unparse, constTok]
+  | .attribute v n, h, lvl => by
+    have hv : inFrag v = true := by simpa [inFrag] using h
+    have := noWalrus p v hv Prec.ATOM
+    by_cases hi : isIntConst v = true <;> simp [unparse, hi, this, op]
   | .unaryOp o x, h, lvl => by
     have hx : inFrag x = true := by simpa [inFrag] using h
     have := noWalrus p x hx (unaryOpPrec o)
@@ -490,7 +502,7 @@ theorem noWalrus (p : Nat → Bool) : (e : Expr) → inFrag e = true → ∀ lvl
   | .namedExpr .., h, _ | .lambda .., h, _ | .dict .., h, _ | .set .., h, _ | .listComp .., h, _
   | .setComp .., h, _ | .dictComp .., h, _ | .genExp .., h, _ | .await .., h, _ | .yield .., h, _
   | .yieldFrom .., h, _ | .call .., h, _ | .formattedValue .., h, _ | .joinedStr .., h, _
-  | .attribute .., h, _ | .subscript .., h, _ | .starred .., h, _ | .list .., h, _ | .tuple .., h, _
+  | .subscript .., h, _ | .starred .., h, _ | .list .., h, _ | .tuple .., h, _
   | .slice .., h, _ => by simp [inFrag] at h
 theorem noWalrusBool (p : Nat → Bool) : (vs : List Expr) → inFragList vs = true →
     ∀ (k : Kw) (lvl : Nat) (first : Bool), Tok.op .walrus ∉ toks (unparseBool p vs k lvl first)
@@ -515,18 +527,47 @@ end
 
 /-! ## atoms and parentheses -/
 
+/-- the next token is not a string literal (which would be concatenated to a preceding one) -/
+def NoStr (rest : List Tok) : Prop := ∀ t r, rest = t :: r → isStringTok t = false
+
+theorem NoStr.takeWhile {rest : List Tok} (h : NoStr rest) :
+    rest.takeWhile isStringTok = [] ∧ rest.dropWhile isStringTok = rest := by
+  cases rest with
+  | nil => simp
+  | cons t r => have := h t r rfl; simp [List.takeWhile, List.dropWhile, this]
+
+theorem parseAtom_str (s : List Nat) (u : Bool) (rest : List Tok) (h : NoStr rest) (f : Nat) :
+    parseAtom (f + 2) (.str s u :: rest) = some (.const (.str s u), rest) := by
+  obtain ⟨h1, h2⟩ := h.takeWhile
+  cases u <;> simp [parseAtom, parseStrings, List.takeWhile, List.dropWhile, isStringTok, h1, h2]
+
+theorem parseAtom_bytes (b : List Nat) (rest : List Tok) (h : NoStr rest) (f : Nat) :
+    parseAtom (f + 2) (.bytes b :: rest) = some (.const (.bytes b), rest) := by
+  obtain ⟨h1, h2⟩ := h.takeWhile
+  simp [parseAtom, parseStrings, List.takeWhile, List.dropWhile, isStringTok, h1, h2]
+
+theorem Stop.noStr {lvl : Nat} {rest : List Tok} (h : Stop lvl rest) : NoStr rest := by
+  intro t r hr
+  have := h t r hr
+  simp only [contTok, Bool.or_eq_false_iff] at this
+  exact this.1.1.1.1.1.1.2
+
+
 theorem parseAt_15 : parseAt 15 = parseAtomExpr2 := by unfold parseAt; simp
 theorem parseAt_1 : parseAt 1 = parseTest := by unfold parseAt; simp
 
 /-- a single-token atom -/
-theorem parses_atom {t : Tok} {e : Expr} (hatom : ∀ f r, parseAtom (f + 1) (t :: r) = some (e, r))
+theorem parses_atom {t : Tok} {e : Expr}
+    (hatom : ∀ rest, NoStr rest → Parses parseAtom (t :: rest) e rest)
     (hgood : goodHead 15 t = true) {lvl : Nat} {rest : List Tok} (h1 : 1 ≤ lvl) (h15 : lvl ≤ 15)
     (hs : Stop lvl rest) : Parses (parseAt lvl) (t :: rest) e rest := by
-  have ha : Parses parseAtom (t :: rest) e rest :=
-    ⟨1, fun fuel hf => by obtain ⟨f, rfl, _⟩ := fuel_succ hf; exact hatom f rest⟩
-  have h2 := step_atomExpr2 ha (hs.mono h15)
+  have h2 := step_atomExpr2 (hatom rest hs.noStr) (hs.mono h15)
   rw [← parseAt_15] at h2
   exact lift h1 h15 (Nat.le_refl _) h2 hgood hs
+
+theorem parses_of_eq {pf : Nat → List Tok → PR Expr} {ts : List Tok} {e : Expr} {rest : List Tok} (k : Nat)
+    (h : ∀ f, pf (f + k) ts = some (e, rest)) : Parses pf ts e rest :=
+  ⟨k, fun fuel hf => by obtain ⟨f, rfl⟩ : ∃ f, fuel = f + k := ⟨fuel - k, by omega⟩; exact h f⟩
 
 theorem starOrNamed_of_test {t : Tok} {r : List Tok} {e : Expr} {rest' : List Tok} {f : Nat}
     (h : parseTest f (t :: r) = some (e, rest')) (hg : goodHead 1 t = true)
@@ -555,42 +596,48 @@ theorem parseElems_close (f : Nat) (close : Op) (hc : close ≠ .comma) (rest : 
   · rename_i heq; simp at heq; obtain ⟨rfl, rfl⟩ := heq; simp
   · rename_i h1 h2; exact absurd rfl (h2 _ _)
 
-/-- a parenthesised expression -/
+/-- a parenthesised expression, as an atom -/
+theorem atom_paren {ts : List Tok} {e : Expr} {rest : List Tok}
+    (h : Parses parseTest (ts ++ .op .rpar :: rest) e (.op .rpar :: rest))
+    (hhead : ∃ t r, ts = t :: r ∧ goodHead 1 t = true) (hw : Tok.op .walrus ∉ ts)
+    (hns : isStarred e = false) :
+    Parses parseAtom (.op .lpar :: (ts ++ .op .rpar :: rest)) e rest := by
+  obtain ⟨t, r, rfl, hg⟩ := hhead
+  obtain ⟨n, hn⟩ := h
+  refine ⟨n + 6, fun fuel hf => ?_⟩
+  obtain ⟨f, rfl⟩ : ∃ f, fuel = f + 6 := ⟨fuel - 6, by omega⟩
+  have hT := hn (f + 2) (by omega)
+  rw [parseAtom]
+  show parseParenAtom (f + 5) _ = _
+  unfold parseParenAtom
+  split
+  · omega
+  · rename_i heq; simp at heq; obtain ⟨rfl, _⟩ := heq; simp [goodHead] at hg
+  · rename_i heq; simp at heq; obtain ⟨rfl, _⟩ := heq; simp [goodHead] at hg
+  · rename_i r' heq' _ _
+    obtain rfl : r' = f + 4 := by omega
+    have hw' : ∀ n r', t :: (r ++ .op .rpar :: rest) ≠ .name n :: .op .walrus :: r' := by
+      intro n r' hc
+      simp only [List.cons.injEq] at hc
+      cases r with
+      | nil => simp at hc
+      | cons a as =>
+        simp at hc
+        obtain ⟨_, rfl, _⟩ := hc
+        simp at hw
+    rw [show t :: r ++ Tok.op Op.rpar :: rest = t :: (r ++ .op .rpar :: rest) from rfl] at hT ⊢
+    rw [starOrNamed_of_test hT hg hw']
+    simp only [atCompFor, Bool.false_eq_true, if_false]
+    rw [parseElems_close _ _ (by decide)]
+    simp [hns]
+
+/-- a parenthesised expression, read at any level -/
 theorem parses_paren {ts : List Tok} {e : Expr} {rest : List Tok}
     (h : Parses parseTest (ts ++ .op .rpar :: rest) e (.op .rpar :: rest))
     (hhead : ∃ t r, ts = t :: r ∧ goodHead 1 t = true) (hw : Tok.op .walrus ∉ ts)
     (hns : isStarred e = false) {lvl : Nat} (h1 : 1 ≤ lvl) (h15 : lvl ≤ 15) (hs : Stop lvl rest) :
     Parses (parseAt lvl) (.op .lpar :: (ts ++ .op .rpar :: rest)) e rest := by
-  obtain ⟨t, r, rfl, hg⟩ := hhead
-  obtain ⟨n, hn⟩ := h
-  have ha : Parses parseAtom (.op .lpar :: (t :: r ++ .op .rpar :: rest)) e rest := by
-    refine ⟨n + 6, fun fuel hf => ?_⟩
-    obtain ⟨f, rfl⟩ : ∃ f, fuel = f + 6 := ⟨fuel - 6, by omega⟩
-    have hT := hn (f + 2) (by omega)
-    rw [parseAtom]
-    show parseParenAtom (f + 5) _ = _
-    unfold parseParenAtom
-    split
-    · omega
-    · rename_i heq; simp at heq; obtain ⟨rfl, _⟩ := heq; simp [goodHead] at hg
-    · rename_i heq; simp at heq; obtain ⟨rfl, _⟩ := heq; simp [goodHead] at hg
-    · rename_i r' heq' _ _
-      obtain rfl : r' = f + 4 := by omega
-      have hw' : ∀ n r', t :: (r ++ .op .rpar :: rest) ≠ .name n :: .op .walrus :: r' := by
-        intro n r' hc
-        simp only [List.cons.injEq] at hc
-        cases r with
-        | nil => simp at hc
-        | cons a as =>
-          simp at hc
-          obtain ⟨_, rfl, _⟩ := hc
-          simp at hw
-      rw [show t :: r ++ Tok.op Op.rpar :: rest = t :: (r ++ .op .rpar :: rest) from rfl] at hT ⊢
-      rw [starOrNamed_of_test hT hg hw']
-      simp only [atCompFor, Bool.false_eq_true, if_false]
-      rw [parseElems_close _ _ (by decide)]
-      simp [hns]
-  have h2 := step_atomExpr2 ha (hs.mono h15)
+  have h2 := step_atomExpr2 (atom_paren h hhead hw hns) (hs.mono h15)
   rw [← parseAt_15] at h2
   exact lift h1 h15 (Nat.le_refl _) h2 rfl hs
 
@@ -653,25 +700,37 @@ theorem parseAt_bin {k : Nat} (hk : k ≤ 5) : parseAt (k + 6) = parseBin k := b
 
 /-! ### names and constants -/
 
+theorem atom_name (id : Ident) (rest : List Tok) : Parses parseAtom (.name id :: rest) (.name id) rest :=
+  parses_of_eq 1 (fun f => by rw [parseAtom])
+
+theorem atom_const (c : Const) (rest : List Tok) (hr : NoStr rest) :
+    Parses parseAtom (constTok c :: rest) (.const c) rest := by
+  cases c with
+  | none => exact parses_of_eq 1 (fun f => by simp [constTok, parseAtom])
+  | bool b => cases b <;> exact parses_of_eq 1 (fun f => by simp [constTok, parseAtom])
+  | ellipsis => exact parses_of_eq 1 (fun f => by simp [constTok, parseAtom])
+  | int n => exact parses_of_eq 1 (fun f => by simp [constTok, parseAtom])
+  | float b => exact parses_of_eq 1 (fun f => by simp [constTok, parseAtom])
+  | imag b => exact parses_of_eq 1 (fun f => by simp [constTok, parseAtom])
+  | str s u => exact parses_of_eq 2 (fun f => parseAtom_str s u rest hr f)
+  | bytes b => exact parses_of_eq 2 (fun f => parseAtom_bytes b rest hr f)
+
+theorem goodHead_constTok (c : Const) : goodHead 15 (constTok c) = true := by
+  cases c with
+  | bool b => cases b <;> rfl
+  | _ => rfl
+
 theorem rt_name (p : Nat → Bool) (id : Ident) : RT p (.name id) := by
   intro lvl rest h1 h15 hs
   have : toks (unparse p (.name id) lvl) = [.name id] := by simp [unparse]
   rw [this]
-  exact parses_atom (fun f r => by rw [parseAtom]) rfl h1 h15 hs
+  exact parses_atom (fun r _ => atom_name id r) rfl h1 h15 hs
 
-theorem rt_const (p : Nat → Bool) (c : Const) (hc : inFrag (.const c) = true) : RT p (.const c) := by
+theorem rt_const (p : Nat → Bool) (c : Const) : RT p (.const c) := by
   intro lvl rest h1 h15 hs
   have : toks (unparse p (.const c) lvl) = [constTok c] := by simp [unparse]
   rw [this]
-  cases c with
-  | none => exact parses_atom (fun f r => by simp [constTok, parseAtom]) rfl h1 h15 hs
-  | bool b => cases b <;> exact parses_atom (fun f r => by simp [constTok, parseAtom]) rfl h1 h15 hs
-  | ellipsis => exact parses_atom (fun f r => by simp [constTok, parseAtom]) rfl h1 h15 hs
-  | int n => exact parses_atom (fun f r => by simp [constTok, parseAtom]) rfl h1 h15 hs
-  | float b => exact parses_atom (fun f r => by simp [constTok, parseAtom]) rfl h1 h15 hs
-  | imag b => exact parses_atom (fun f r => by simp [constTok, parseAtom]) rfl h1 h15 hs
-  | str _ _ => simp [inFrag] at hc
-  | bytes _ => simp [inFrag] at hc
+  exact parses_atom (fun r hr => atom_const c r hr) (goodHead_constTok c) h1 h15 hs
 
 /-! ### unary operators -/
 
@@ -1058,6 +1117,67 @@ theorem rt_compare (p : Nat → Bool) (l : Expr) (ops : List CmpOp) (cs : List E
   simp only
   rw [this]
 
+/-! ### atoms and trailers -/
+
+/-- `e`, rendered at atom level, is read by `parseAtom` -/
+def AtomRT (p : Nat → Bool) (e : Expr) : Prop :=
+  ∀ rest, NoStr rest → Parses parseAtom (toks (unparse p e 15) ++ rest) e rest
+
+/-- trailer form: reading `e` (rendered at atom level) and then looping over trailers is the same as
+    looping with `e` as accumulator -/
+def TrailRT (p : Nat → Bool) (e : Expr) : Prop :=
+  ∀ rest, NoStr rest → ∃ j n, ∀ f, n ≤ f →
+    parseAtomExpr2 (f + j) (toks (unparse p e 15) ++ rest) = parseTrailers f e rest
+
+theorem trailRT_of_atomRT {p : Nat → Bool} {e : Expr} (h : AtomRT p e) : TrailRT p e := by
+  intro rest hr
+  obtain ⟨n, hn⟩ := h rest hr
+  exact ⟨1, n, fun f hf => by rw [parseAtomExpr2, hn f hf]⟩
+
+theorem noStr_rpar (rest : List Tok) : NoStr (.op .rpar :: rest) := by
+  intro t r h; cases h; rfl
+
+/-- a node with a precedence level below the atom level is written in parentheses at atom level -/
+theorem atomRT_of_rt (p : Nat → Bool) {e : Expr} {prec : Nat} (hf : inFrag e = true)
+    (hk : kindPrec (kindOf e) = some prec) (hp1 : 1 ≤ prec) (hp : prec < 15) (hrt : RT p e) : AtomRT p e := by
+  intro rest _
+  obtain ⟨t, r, ht, hg⟩ := firstTok p e hf prec
+  rw [unparse_group p e 15 prec hk, toks_groupIf, if_pos (by simpa using hp)]
+  have hin := hrt prec (.op .rpar :: rest) hp1 (by omega) (Stop.cons (contTok_rpar _))
+  rw [ht] at hin
+  have hT := lift (lvl := 1) (Nat.le_refl _) hp1 (by omega) hin hg (Stop.cons (contTok_rpar _))
+  rw [parseAt_1] at hT
+  have hT' : Parses parseTest (toks (unparse p e prec) ++ .op .rpar :: rest) e (.op .rpar :: rest) := by
+    rw [ht]; exact hT
+  have := atom_paren hT' ⟨t, r, ht, goodHead_anti hp1 hg⟩ (noWalrus p e hf prec) (inFrag_not_starred hf)
+  simpa using this
+
+/-- from the trailer form to every level, for kinds that are never parenthesised -/
+theorem rt_of_trailRT (p : Nat → Bool) {e : Expr} (hk : kindPrec (kindOf e) = none)
+    (hfirst : ∃ t r, toks (unparse p e 15) = t :: r ∧ goodHead 15 t = true) (h : TrailRT p e) : RT p e := by
+  intro lvl rest h1 h15 hs
+  rw [unparse_nogroup p e lvl 15 hk]
+  obtain ⟨j, n, hn⟩ := h rest hs.noStr
+  have h2 : Parses parseAtomExpr2 (toks (unparse p e 15) ++ rest) e rest := by
+    refine ⟨n + j + 1, fun fuel hf => ?_⟩
+    obtain ⟨f, rfl⟩ : ∃ f, fuel = (f + 1) + j := ⟨fuel - j - 1, by omega⟩
+    rw [hn (f + 1) (by omega)]
+    exact (hs.mono h15).trailers
+  obtain ⟨t, r, ht, hg⟩ := hfirst
+  rw [← parseAt_15, ht] at h2
+  rw [ht]
+  exact lift h1 h15 (Nat.le_refl _) h2 hg hs
+
+theorem trailRT_attribute (p : Nat → Bool) (v : Expr) (n : Ident) (ih : TrailRT p v) :
+    TrailRT p (.attribute v n) := by
+  intro rest hr
+  have e1 : toks (unparse p (.attribute v n) 15) ++ rest =
+      toks (unparse p v 15) ++ (.op .dot :: .name n :: rest) := by
+    by_cases hi : isIntConst v = true <;> simp [unparse, hi, Prec.ATOM, op]
+  obtain ⟨j, m, hm⟩ := ih (.op .dot :: .name n :: rest) (by intro t r h; cases h; rfl)
+  refine ⟨j + 1, m, fun f hf => ?_⟩
+  rw [e1, show f + (j + 1) = (f + 1) + j by omega, hm (f + 1) (by omega), parseTrailers]
+
 /-! ## the induction over the fragment -/
 
 /-- `LoopRT` for a node that is not a left-associative operator of level `k` -/
@@ -1067,74 +1187,107 @@ theorem loopRT_other (p : Nat → Bool) {k : Nat} (hk : k ≤ 5) {e : Expr}
 
 theorem binOpPrec_pow : binOpPrec .pow = 13 := rfl
 
+/-- everything the induction carries for one node -/
+structure Good (p : Nat → Bool) (e : Expr) : Prop where
+  rt : RT p e
+  loop : ∀ k, k ≤ 5 → LoopRT p k e
+  trail : TrailRT p e
+
+/-- a node with its own precedence level `prec < 15` -/
+theorem good_of_rt (p : Nat → Bool) {e : Expr} {prec : Nat} (hf : inFrag e = true)
+    (hk : kindPrec (kindOf e) = some prec) (hp1 : 1 ≤ prec) (hp : prec < 15) (hrt : RT p e)
+    (hloop : ∀ k, k ≤ 5 → k + 6 = prec → LoopRT p k e) : Good p e where
+  rt := hrt
+  loop := fun k hk5 => by
+    by_cases hkk : k + 6 = prec
+    · exact hloop k hk5 hkk
+    · exact loopRT_other p hk5 (by rw [hk]; simpa using fun h => hkk h.symm) hrt
+  trail := trailRT_of_atomRT (atomRT_of_rt p hf hk hp1 hp hrt)
+
+/-- a node that is never parenthesised -/
+theorem good_of_trail (p : Nat → Bool) {e : Expr} (hk : kindPrec (kindOf e) = none)
+    (hfirst : ∃ t r, toks (unparse p e 15) = t :: r ∧ goodHead 15 t = true) (h : TrailRT p e) : Good p e :=
+  have hrt := rt_of_trailRT p hk hfirst h
+  { rt := hrt
+    loop := fun k hk5 => loopRT_other p hk5 (by rw [hk]; simp) hrt
+    trail := h }
+
 mutual
-theorem rt_all (p : Nat → Bool) : (e : Expr) → inFrag e = true → RT p e ∧ ∀ k, k ≤ 5 → LoopRT p k e
-  | .name id, _ => ⟨rt_name p id, fun k hk => loopRT_other p hk (by simp [kindOf, kindPrec]) (rt_name p id)⟩
-  | .const c, h => ⟨rt_const p c h, fun k hk => loopRT_other p hk (by simp [kindOf, kindPrec]) (rt_const p c h)⟩
+theorem rt_all (p : Nat → Bool) : (e : Expr) → inFrag e = true → Good p e
+  | .name id, _ =>
+    good_of_trail p rfl ⟨.name id, [], by simp [unparse], rfl⟩
+      (trailRT_of_atomRT (fun rest _ => by simpa [unparse] using atom_name id rest))
+  | .const c, _ =>
+    good_of_trail p rfl ⟨constTok c, [], by simp [unparse], goodHead_constTok c⟩
+      (trailRT_of_atomRT (fun rest hr => by simpa [unparse] using atom_const c rest hr))
+  | .attribute v n, h => by
+    have hv : inFrag v = true := by simpa [inFrag] using h
+    have ihv := rt_all p v hv
+    refine good_of_trail p rfl ?_ (trailRT_attribute p v n ihv.trail)
+    obtain ⟨t, r, ht, hg⟩ := firstTok p (.attribute v n) h 15
+    exact ⟨t, r, ht, hg⟩
   | .unaryOp o x, h => by
     have hx : inFrag x = true := by simpa [inFrag] using h
-    have ihx := (rt_all p x hx).1
-    have hrt : RT p (.unaryOp o x) := by
-      by_cases ho : o = .not
-      · subst ho; exact rt_not p x hx ihx
-      · exact rt_factor p o ho x hx ihx
-    refine ⟨hrt, fun k hk => loopRT_other p hk ?_ hrt⟩
-    cases o <;> simp [kindOf, kindPrec, unaryOpPrec, Prec.FACTOR, Prec.NOT] <;> omega
+    have ihx := (rt_all p x hx).rt
+    by_cases ho : o = .not
+    · subst ho
+      exact good_of_rt p h (prec := 4) rfl (by omega) (by omega) (rt_not p x hx ihx) (fun k _ hk => by omega)
+    · have hprec : unaryOpPrec o = 12 := by cases o <;> first | rfl | exact absurd rfl ho
+      exact good_of_rt p h (prec := 12) (by simp [kindOf, kindPrec, hprec]) (by omega) (by omega)
+        (rt_factor p o ho x hx ihx) (fun k _ hk => by omega)
   | .binOp l o r, h => by
     have hl : inFrag l = true := by simp [inFrag] at h; exact h.1
     have hr : inFrag r = true := by simp [inFrag] at h; exact h.2
-    obtain ⟨ihl, ihlL⟩ := rt_all p l hl
-    obtain ⟨ihr, _⟩ := rt_all p r hr
+    have ihl := rt_all p l hl
+    have ihr := rt_all p r hr
     by_cases ho : o = .pow
     · subst ho
-      have hrt := rt_pow p l r hl hr ihl ihr
-      exact ⟨hrt, fun k hk => loopRT_other p hk (by simp [kindOf, kindPrec, binOpPrec_pow]; omega) hrt⟩
+      exact good_of_rt p h (prec := 13) rfl (by omega) (by omega) (rt_pow p l r hl hr ihl.rt ihr.rt)
+        (fun k _ hk => by omega)
     · obtain ⟨hk5, hprec⟩ := binLevel_le o ho
-      have hrt := rt_bin p l o r ho hl hr (ihlL _ hk5) ihr
-      refine ⟨hrt, fun k hk => ?_⟩
-      by_cases hkk : k = binLevel o
-      · subst hkk; exact loopRT_bin p l o r ho (ihlL _ hk5) ihr
-      · exact loopRT_other p hk (by simp [kindOf, kindPrec, hprec]; omega) hrt
+      refine good_of_rt p h (prec := binLevel o + 6) (by simp [kindOf, kindPrec, hprec]) (by omega) (by omega)
+        (rt_bin p l o r ho hl hr (ihl.loop _ hk5) ihr.rt) (fun k _ hk => ?_)
+      obtain rfl : k = binLevel o := by omega
+      exact loopRT_bin p l o r ho (ihl.loop _ hk5) ihr.rt
   | .boolOp o [], h => by simp [inFrag] at h
   | .boolOp o [_], h => by simp [inFrag] at h
   | .boolOp o (v :: w :: ws), h => by
     have hv : inFrag v = true := by simp [inFrag, inFragList] at h; exact h.1
     have hws : inFragList (w :: ws) = true := by simp [inFrag, inFragList] at h ⊢; exact h.2
-    have ihv := (rt_all p v hv).1
+    have ihv := (rt_all p v hv).rt
     have ihws := rt_list p (w :: ws) hws
-    have hrt : RT p (.boolOp o (v :: w :: ws)) := by
-      cases o
-      · exact rt_and p v w ws h ihv (fun x hx => (ihws x hx).1)
-      · exact rt_or p v w ws h ihv (fun x hx => (ihws x hx).1)
-    refine ⟨hrt, fun k hk => loopRT_other p hk ?_ hrt⟩
-    cases o <;> simp [kindOf, kindPrec, boolOpPrec, Prec.AND, Prec.OR] <;> omega
+    cases o
+    · exact good_of_rt p h (prec := 3) rfl (by omega) (by omega)
+        (rt_and p v w ws h ihv (fun x hx => (ihws x hx).1.rt)) (fun k _ hk => by omega)
+    · exact good_of_rt p h (prec := 2) rfl (by omega) (by omega)
+        (rt_or p v w ws h ihv (fun x hx => (ihws x hx).1.rt)) (fun k _ hk => by omega)
   | .compare l ops cs, h => by
     have hl : inFrag l = true := by simp [inFrag] at h; exact h.1.1.1
     have hc : inFragList cs = true := by simp [inFrag] at h; exact h.2
-    have ihl := (rt_all p l hl).1
+    have ihl := (rt_all p l hl).rt
     have ihcs := rt_list p cs hc
-    have hrt := rt_compare p l ops cs h ihl ihcs
-    exact ⟨hrt, fun k hk => loopRT_other p hk (by simp [kindOf, kindPrec, Prec.CMP] <;> omega) hrt⟩
+    exact good_of_rt p h (prec := 5) rfl (by omega) (by omega)
+      (rt_compare p l ops cs h ihl (fun c hc => ⟨(ihcs c hc).1.rt, (ihcs c hc).2⟩)) (fun k _ hk => by omega)
   | .ifExp t b o, h => by
     have ht : inFrag t = true := by simp [inFrag] at h; exact h.1.1
     have hb : inFrag b = true := by simp [inFrag] at h; exact h.1.2
     have ho : inFrag o = true := by simp [inFrag] at h; exact h.2
-    have hrt := rt_ifExp p t b o h (rt_all p t ht).1 (rt_all p b hb).1 (rt_all p o ho).1
-    exact ⟨hrt, fun k hk => loopRT_other p hk (by simp [kindOf, kindPrec, Prec.TEST] <;> omega) hrt⟩
+    exact good_of_rt p h (prec := 1) rfl (by omega) (by omega)
+      (rt_ifExp p t b o h (rt_all p t ht).rt (rt_all p b hb).rt (rt_all p o ho).rt) (fun k _ hk => by omega)
   | .namedExpr .., h | .lambda .., h | .dict .., h | .set .., h | .listComp .., h
   | .setComp .., h | .dictComp .., h | .genExp .., h | .await .., h | .yield .., h
   | .yieldFrom .., h | .call .., h | .formattedValue .., h | .joinedStr .., h
-  | .attribute .., h | .subscript .., h | .starred .., h | .list .., h | .tuple .., h
+  | .subscript .., h | .starred .., h | .list .., h | .tuple .., h
   | .slice .., h => by simp [inFrag] at h
 theorem rt_list (p : Nat → Bool) : (es : List Expr) → inFragList es = true →
-    ∀ e ∈ es, RT p e ∧ inFrag e = true
+    ∀ e ∈ es, Good p e ∧ inFrag e = true
   | [], _ => by simp
   | x :: xs, h => by
     have hx : inFrag x = true := by simp [inFragList] at h; exact h.1
     have hxs : inFragList xs = true := by simp [inFragList] at h; exact h.2
     intro e he
     rcases List.mem_cons.mp he with h0 | he'
-    · rw [h0]; exact ⟨(rt_all p x hx).1, hx⟩
+    · rw [h0]; exact ⟨rt_all p x hx, hx⟩
     · exact rt_list p xs hxs e he'
 end
 
